@@ -143,3 +143,11 @@ package util
 //@   loop 4 invariant [templates] forall j int :: 0 <= j && j < len(c.Templates) ==> GtarNames[fjoin(chartBase(c, prefix), c.Templates[j].Name)]
 //@   loop 4 invariant [files] forall j int :: 0 <= j && j < len(c.Files) ==> GtarNames[fjoin(chartBase(c, prefix), c.Files[j].Name)]
 //@   loop 4 invariant [dependencies-so-far] forall j int :: 0 <= j && j < #iter ==> GtarNames[fjoin(chartBase(c.dependencies[j], fjoin(chartBase(c, prefix), "charts")), "Chart.yaml")]
+
+// ---- C20: import-values entries come from Chart.yaml unvalidated (a list of strings or of maps with
+// whatever keys and values the file has); processing them must not panic. The precondition is what
+// chart validation at load guarantees (metadata present, no null dependency).
+//@ func processImportValues
+//@   props C20
+//@   requires c != nil && c.Metadata != nil && (forall j int :: 0 <= j && j < len(c.Metadata.Dependencies) ==> c.Metadata.Dependencies[j] != nil)
+//@   loop 1 invariant [dependencies-stay-valid] c != nil && c.Metadata != nil && c.Metadata.Dependencies == old(c.Metadata.Dependencies) && (forall j int :: 0 <= j && j < len(c.Metadata.Dependencies) ==> c.Metadata.Dependencies[j] != nil)
